@@ -26,7 +26,7 @@ ALGO = ("algo", ["debug"])
 HIST = ("hist", ["debug"])
 SHAPE = ("shape", ["debug", "release"])
 
-DEND = ("dend", ["debug"])
+DEND = ("dend", ["debug", "release"])
 
 ALGO2 = ("algo", ["debug", "release"])
 # operation sequences on the internal components (Active, LinkageUnionFind, LinkageHeap)
@@ -62,11 +62,12 @@ PROPS = {
     "C08": dict(
         streams=[HIST, ALGO, COMP],
         oracles=[dict(name="reuse", profiles=["debug", "release"])],
+        extras=["capi_threads"],
         assumptions=["thread independence is not expressible in the (pure) model: covered by the 16-thread differential run of the oracle only"],
     ),
     "C19": dict(
         streams=[DEND],
-        oracles=[dict(name="container", profiles=["debug"])],
+        oracles=[dict(name="container", profiles=["debug", "release"])],
         assumptions=["eq_with_epsilon is characterised with the rounded float subtraction the code performs"],
     ),
     "C15": dict(
